@@ -2,7 +2,7 @@
    Only statements here; proofs are in Proofs/Crc*.v, Proofs/Frames*.v, Bridge/Crc.v. *)
 From Coq Require Import ZArith List Bool.
 From NV Require Import Base.Result Base.Bytes Base.PyPrims Model.Crc Model.Frames Gen.Crc
-  Proofs.Crc Proofs.CrcCheck Proofs.Frames Proofs.Frames2 Bridge.Crc Gen.FramesK Bridge.FramesK Bridge.FramesP Bridge.FramesA.
+  Proofs.Crc Proofs.CrcCheck Proofs.Frames Proofs.Frames2 Bridge.Crc Gen.FramesK Bridge.FramesK Bridge.FramesP Bridge.FramesA Model.CrcPath Proofs.CrcPath Gen.CrcPathK Bridge.CrcPathK.
 Import ListNotations.
 Open Scope Z_scope.
 
@@ -117,3 +117,35 @@ Example C14_nonvacuous :
   host_frame_ok (pn53x_build 2 []) = Some [212; 2] /\
   check_crc_a [0x00; 0x00; 0xA0; 0x1E] = Ok true.
 Proof. vm_compute. repeat split. Qed.
+
+(* --- who verifies CRC_A on a Type A target (PN53x family): sense_tta switches the chip's check off for SEL_RES values
+   that may answer with a 4-bit ACK/NAK, send_cmd_recv_rsp then takes the software path; for EVERY SEL_RES value,
+   register content with RxCRCEn set and response frame, data is returned only after CRC_A was verified by one of
+   the two, and exactly the CRC is removed --- *)
+Theorem C14_type_a_rsp_sound : forall sel_res rxmode0 d x y out,
+  bytes_ok d -> 1 <= len d -> Z.testbit rxmode0 7 = true ->
+  type_a_rsp sel_res rxmode0 (d ++ [x; y]) = Ok out -> [x; y] = iso_crc_a d /\ out = d.
+Proof. exact type_a_rsp_sound. Qed.
+Print Assumptions C14_type_a_rsp_sound.
+Theorem C14_type_a_rsp_complete : forall sel_res rxmode0 d,
+  bytes_ok d -> 1 <= len d -> Z.testbit rxmode0 7 = true -> type_a_rsp sel_res rxmode0 (d ++ iso_crc_a d) = Ok d.
+Proof. exact type_a_rsp_complete. Qed.
+Print Assumptions C14_type_a_rsp_complete.
+Example C14_type_a_rsp_nonvacuous :
+  type_a_rsp [8] 136 ([1; 2; 3] ++ iso_crc_a [1; 2; 3]) = Ok [1; 2; 3] /\
+  type_a_rsp [32] 136 ([1; 2; 3] ++ iso_crc_a [1; 2; 3]) = Ok [1; 2; 3] /\
+  type_a_rsp [8] 136 ([1; 2; 3] ++ [0; 0]) = Err TransmissionError /\ Z.testbit 136 7 = true.
+Proof. vm_compute. repeat split; reflexivity. Qed.
+(* the two conditions and the software check, cut out of pn53x.py on this run *)
+Theorem C14_bridge_chip_crc_off : forall s, gen_chip_crc_off s = chip_crc_off s.
+Proof. exact bridge_chip_crc_off. Qed.
+Print Assumptions C14_bridge_chip_crc_off.
+Theorem C14_bridge_rxmode_off : forall r, gen_rxmode_off r = rxmode_off r.
+Proof. exact bridge_rxmode_off. Qed.
+Print Assumptions C14_bridge_rxmode_off.
+Theorem C14_bridge_sw_crc_path : forall s, gen_sw_crc_path s = sw_crc_path s.
+Proof. exact bridge_sw_crc_path. Qed.
+Print Assumptions C14_bridge_sw_crc_path.
+Theorem C14_bridge_tt2_rsp : forall data, gen_tt2_rsp data = tt2_rsp data.
+Proof. exact bridge_tt2_rsp. Qed.
+Print Assumptions C14_bridge_tt2_rsp.
